@@ -16,7 +16,7 @@ func init() {
 		Decided: "C07.1 key completeness: every key given to the transaction dispatcher (Add/Have/Pop/Delete) has both fields set on every path - RemoteAddr from Addr.String() of the peer's address (query destination in Query, datagram source in processPacket) and T from the issued id / the received t; Key has exactly these two fields and the dispatcher's map is keyed by the whole struct (a key flattened to the plain concatenation id+address is decided as a violation: not injective); the key local is not overwritten wholesale from anywhere else; " +
 			"C07.2 match → pop → deliver once: Pop only under Have(k)=true for the same key in one critical section; handleResponse has one call site fed by the popped value; onResponse is stored only by Query; the unknown-key branch of processPacket reaches exit without touching transactions or the table; " +
 			"C07.3 registration brackets the exchange in Query: addTransaction dominates the start of the sender, deleteTransaction post-dominates it, both under Server.mu, same key; " +
-			"C07.4 ids are issued atomically from a 64-bit counter: read, increment and encoding of `next` are in one critical section of the issuer's mutex, the counter is uint64 and the id is the uvarint encoding of the value read; every outbound t comes from Issue(); " +
+			"C07.4 ids are issued atomically from a 64-bit counter: read, increment and encoding of `next` are in one critical section of the issuer's mutex, the counter is uint64 and the id is the uvarint encoding of the value read; every outbound t comes from Issue() (the issuer is found structurally: the concrete type of transactions.DefaultIdIssuer); " +
 			"C07.5 the reply hand-off cannot block or be mixed up: the channel onResponse sends on is a fresh `make(chan, constant ≥ 1)` of that very Query call; " +
 			"C07.6 payload and source stay together: serve hands b[:n] and the address of one ReadFrom to processPacket synchronously (the buffer is reused by the next read).",
 		NotDecided: "injectivity of the uvarint encoding (library), wrap-around of a 64-bit counter, behaviour under concrete interleavings beyond the critical-section facts.",
@@ -166,7 +166,7 @@ func c07r1(w *World, rr *RuleRun) {
 	txns := w.P.Field("transactions", "Dispatcher", "txns")
 	mt, isMap := txns.Type().Underlying().(*types.Map)
 	rr.Oblige("transactions.Dispatcher", "the dispatcher's map is keyed by the whole Key struct", "-", isMap && types.Identical(mt.Key(), keyT), txns.Type().String())
-	issue := w.P.Func("(*transactions.varintIdIssuer).Issue")
+	issue := w.idIssuer().issue
 	nextTID := w.P.Func("(*Server).nextTransactionID")
 	msgT := w.P.Field("krpc", "Msg", "T")
 	// every call of a dispatcher method / the Server wrappers with a key literal built in that function
@@ -501,14 +501,58 @@ func c07r3(w *World, rr *RuleRun) {
 	}
 }
 
+// idIssuer finds the transaction-id issuer structurally: the concrete type of the package-level
+// transactions.DefaultIdIssuer, its Issue method, the integer field that method advances (the
+// counter) and, if there is one, the byte-array field it encodes into (C07-v1 renamed the type).
+type idIssuerAnchors struct {
+	typ   *types.Named
+	issue *ssa.Function
+	next  *types.Var
+	buf   *types.Var // may be nil
+}
+
+func (w *World) idIssuer() *idIssuerAnchors {
+	g := w.P.Global("transactions", "DefaultIdIssuer")
+	t := g.Type().(*types.Pointer).Elem()
+	nt, ok := t.(*types.Named)
+	if !ok {
+		broken("transactions.DefaultIdIssuer has no named concrete type (%s): the issuer cannot be identified", t)
+	}
+	a := &idIssuerAnchors{typ: nt}
+	a.issue = w.P.Func("(*" + "transactions." + nt.Obj().Name() + ").Issue")
+	st, ok := nt.Underlying().(*types.Struct)
+	if !ok {
+		broken("id issuer %s is not a struct", nt)
+	}
+	eachInstr([]*ssa.Function{a.issue}, func(_ *ssa.Function, ins ssa.Instruction) {
+		if sto, ok := ins.(*ssa.Store); ok {
+			if fv := fieldOfAddr(sto.Addr); fv != nil {
+				if b, isB := fv.Type().Underlying().(*types.Basic); isB && b.Info()&types.IsInteger != 0 {
+					a.next = fv
+				}
+			}
+		}
+	})
+	for i := 0; i < st.NumFields(); i++ {
+		if arr, isArr := st.Field(i).Type().Underlying().(*types.Array); isArr {
+			if b, isB := arr.Elem().Underlying().(*types.Basic); isB && b.Kind() == types.Uint8 {
+				a.buf = st.Field(i)
+			}
+		}
+	}
+	if a.next == nil {
+		broken("id issuer %s: Issue advances no integer field", nt)
+	}
+	return a
+}
+
 func c07r4(w *World, rr *RuleRun) {
 	w.LK.Run()
-	issue := w.P.Func("(*transactions.varintIdIssuer).Issue")
-	next := w.P.Field("transactions", "varintIdIssuer", "next")
-	buf := w.P.Field("transactions", "varintIdIssuer", "buf")
+	ia := w.idIssuer()
+	issue, next, buf := ia.issue, ia.next, ia.buf
 	var imu *types.Var
 	for _, c := range w.LK.Classes {
-		if strings.Contains(w.LK.ClassName(c), "varintIdIssuer.") {
+		if strings.Contains(w.LK.ClassName(c), ia.typ.Obj().Name()+".") {
 			imu = c
 		}
 	}
@@ -517,9 +561,11 @@ func c07r4(w *World, rr *RuleRun) {
 		return
 	}
 	b, isBasic := next.Type().Underlying().(*types.Basic)
-	rr.Oblige("transactions.varintIdIssuer", "the id counter is a 64-bit unsigned integer", "-", isBasic && b.Kind() == types.Uint64, next.Type().String())
-	w.GuardedBy(rr, w.P.LibFuncs, next, imu, "varintIdIssuer", nil)
-	w.GuardedBy(rr, w.P.LibFuncs, buf, imu, "varintIdIssuer", nil)
+	rr.Oblige("transactions."+ia.typ.Obj().Name(), "the id counter is a 64-bit unsigned integer", "-", isBasic && b.Kind() == types.Uint64, next.Type().String())
+	w.GuardedBy(rr, w.P.LibFuncs, next, imu, ia.typ.Obj().Name(), nil)
+	if buf != nil {
+		w.GuardedBy(rr, w.P.LibFuncs, buf, imu, ia.typ.Obj().Name(), nil)
+	}
 	// returned id = string(buf[:PutUvarint(buf[:], next)]) with next read before the increment
 	for _, bb := range issue.Blocks {
 		for _, ins := range bb.Instrs {
@@ -533,7 +579,7 @@ func c07r4(w *World, rr *RuleRun) {
 			if v.Op == OpConv && len(v.Args) == 1 && v.Args[0].Op == OpSlice {
 				sl := v.Args[0]
 				hi := sl.Args[2]
-				if isFieldTerm(sl.Args[0], buf) && hi.Op == OpCall && suffixName(hi) == "PutUvarint" && len(hi.Args) == 2 && isFieldTerm(hi.Args[1], next) {
+				if buf != nil && isFieldTerm(sl.Args[0], buf) && hi.Op == OpCall && suffixName(hi) == "PutUvarint" && len(hi.Args) == 2 && isFieldTerm(hi.Args[1], next) {
 					okEnc = true
 				}
 			}
